@@ -12,12 +12,12 @@ import (
 
 var (
 	litPool    = []string{"a", "b", "ab", "users", "v1", "a.f", "x-y", "B", "a b", "caf\u00e9", "x,y", "a;b"}
-	rePool     = []string{"[0-9]+", "[a-z]+", "[a-z0-9]+", "[A-Z][A-Z]", "[0-9]{2}", "(cats|dogs)"}
+	rePool     = []string{"[0-9]+", "[a-z]+", "[a-z0-9]+", "[A-Z][A-Z]", "[0-9]{2}", "(cats|dogs)", "(a|b)-(c|d)"}
 	sufPool    = []string{".f", ".txt", "-x"}
 	verbPool   = []string{":go", ":undo"}
 	methodPool = []string{"GET", "POST", "PUT", "DELETE", "PATCH"}
 	mimePool   = []string{"application/json", "application/xml", "text/plain"}
-	valuePool  = []string{"1", "42", "abc", "a1", "x.y", "A", "AB", "a.f", "a.txt", "7:go", "q", "a", "b", "users", "12", "AB1", "é", "a b", "{x}", "a:undo", "zz-x", "%41", ".", "..", "ago", "1:xgo", "undo"}
+	valuePool  = []string{"1", "42", "abc", "a1", "x.y", "A", "AB", "a.f", "a.txt", "7:go", "q", "a", "b", "users", "12", "AB1", "é", "a b", "{x}", "a:undo", "zz-x", "%41", ".", "..", "ago", "1:xgo", "undo", "a-c", "b-d", "a-"}
 	acceptPool = []string{"", "", "*/*", "application/json", "application/xml", "text/plain", "application/json;q=0.5, application/xml",
 		"text/*", "application/*", "application/json;q=0", " application/xml ", "text/html, */*;q=0.1", "text/html", "application/json , text/html",
 		"application/xml;q=0.1,application/json", "garbage", "*/* ; q=0.8"}
@@ -244,7 +244,7 @@ func randomTable(r *rand.Rand, profile string, nreq int) tableCase {
 				rs.M = []string{"GET", "POST"}[r.Intn(2)]
 			}
 			if r.Intn(14) == 0 {
-				rs.M = pick(r, []string{"TRACE", "PROPFIND", "REPORT"}) // methods outside the usual seven
+				rs.M = pick(r, []string{"TRACE", "PROPFIND", "REPORT", "UNLOCK", "LOCK", "PROPPATCH"}) // methods outside the usual seven; some contain another
 			}
 			if profile == "allow" && r.Intn(8) == 0 {
 				rs.M = "OPTIONS" // a table with its own OPTIONS route
@@ -323,6 +323,8 @@ func valueFor(r *rand.Rand, tok string) []string {
 			val = pick(r, []string{"12", "00"})
 		case "(cats|dogs)":
 			val = pick(r, []string{"cats", "dogs"})
+		case "(a|b)-(c|d)":
+			val = pick(r, []string{"a-c", "b-d"})
 		}
 	}
 	return []string{pre + val + suf + verb}
